@@ -91,8 +91,14 @@ impl PartialDate {
 macro_rules! impl_with_fallback_method {
     ($method_name:ident, ( $(with_day: $day:ident)? ) $component_type:ty) => {
         pub(crate) fn $method_name(&self, fallback: &$component_type) -> TemporalResult<Self> {
+            // CalendarMergeFields: a supplied `year` replaces the receiver's era and eraYear, a supplied era or
+            // eraYear replaces the receiver's `year`; with neither supplied the receiver provides all three.
+            let supplies_year = self.year.is_some();
+            let supplies_era = self.era.is_some() || self.era_year.is_some();
             let era = if let Some(era) = self.era {
                 Some(era)
+            } else if supplies_year || supplies_era {
+                None
             } else {
                 let era = fallback.era();
                 era.map(|e| {
@@ -101,9 +107,16 @@ macro_rules! impl_with_fallback_method {
                 })
                 .transpose()?
             };
-            let era_year = self
-                .era_year
-                .map_or_else(|| fallback.era_year(), |ey| Some(ey));
+            let era_year = if supplies_year || supplies_era {
+                self.era_year
+            } else {
+                fallback.era_year()
+            };
+            let year = if supplies_era && !supplies_year {
+                None
+            } else {
+                Some(self.year.unwrap_or(fallback.year()))
+            };
 
             let (month, month_code) = match (self.month, self.month_code) {
                 (Some(month), Some(mc)) => (Some(month), Some(mc)),
@@ -117,7 +130,7 @@ macro_rules! impl_with_fallback_method {
             };
             #[allow(clippy::needless_update)] {
                 Ok(Self {
-                    year: Some(self.year.unwrap_or(fallback.year())),
+                    year,
                     month,
                     month_code,
                     $($day: Some(self.day.unwrap_or(fallback.day().into())),)?
